@@ -43,6 +43,7 @@ fn main() {
         "reflect" => reflect::run(&out),
         "reflect-tableorder" => reflect::run_tableorder(&out),
         "reflect-locks" => c11::reflect(&out).map_err(|e| e.to_string().into()),
+        "c10-btc-probe" => { for f in c11::c10_btc_override_scenario() { println!("{}", f); } Ok(()) }
         "c01" | "c03" | "c10" => storetrace::run(&out, seed, thorough, &cmd),
         "c02" => c02::run(&out, seed, thorough),
         "c02-child" => c02::child(&args),
